@@ -1,8 +1,8 @@
 """C07 - status line: accepted language and reported version/code/reason (product with the reference grammar)."""
 from .jobs import *
 REQUIRED_WITNESSES = ['C', 'P', 'E:Status', 'E:Version', 'E:NewLine']
-BOUNDS = {'quick': 'every response buffer of 0..=12 bytes; split templates with 1..=7 symbolic bytes after the version / code; all 1000 codes (digits symbolic, one arithmetic query per path); multi-space option symbolic throughout',
-          'thorough': 'every response buffer of 0..=15 bytes; split templates to 10 symbolic bytes; reasons to 24 bytes'}
+BOUNDS = {'quick': 'every response buffer of 0..=12 bytes; split templates with 1..=7 symbolic bytes after the version / code; all 1000 codes (digits symbolic, one arithmetic query per path); reasons to 20 bytes; multi-space option symbolic throughout',
+          'thorough': 'every response buffer of 0..=15 bytes; split templates to 10 symbolic bytes; reasons to 40 bytes'}
 OUTSIDE = 'longer status lines'
 ASSUMPTIONS = ['reference model /verif/refmodel transcribes the status-line grammar of the property text']
 
@@ -10,8 +10,12 @@ ASSUMPTIONS = ['reference model /verif/refmodel transcribes the status-line gram
 def jobs(tier, seed):
     P = 'C07'; G = ['ref']
     J = startline_families(P, G, tier, which=('resp',))
-    for L in (range(0, 13, 3) if tier == 'quick' else range(0, 25, 2)):
+    # long reasons: every byte takes any 7-bit value but CR/LF, one (seed-rotated) position takes all 254 values
+    # (the obs-text flag otherwise doubles the path count per byte)
+    A7 = [b for b in range(128) if b not in (9, 10, 13, 32)]; A8 = [b for b in range(256) if b not in (10, 13)]
+    for L in ((0, 1, 4, 8, 12, 20) if tier == 'quick' else range(0, 41, 2)):
+        hot = (seed * 3 + L) % L if L else 0
         J.append(product_job(P, f'reason-L{L}', G, sc('resp', L, prefix=b'HTTP/1.0 301 ', suffix=b'\r\n\n', api='parse', cap=1,
-                             fixed={i: [b for b in range(256) if b not in (10, 13)] for i in range(L)}), T(tier, 60, 300),
-                             f'"HTTP/1.0 301 " + {L} symbolic reason bytes (any value but CR/LF) + CRLF LF', family='reason', mandatory=(L <= 6)))
+                             fixed={i: (A8 if i == hot else A7) for i in range(L)}), T(tier, 60, 300),
+                             f'"HTTP/1.0 301 " + {L} symbolic reason bytes (7-bit but HTAB/SP/CR/LF; offset {hot}: any value but CR/LF) + CRLF LF', family='reason', mandatory=(L <= 8)))
     return J
